@@ -282,12 +282,12 @@ def plan(ck):
         # three coroutines behind a holder that hops, one worker
         for u in "aoh":
             P.append((["--exact", "k3/%s/man1/%s" % (o, u)], ["--mode", "dfs"] + big, True))
-            nb = "400" if quick else "2000"
+            nb = "250" if quick else "2000"
             P.append((["--exact", "k3/%s/pool1/%s+y" % (o, u)], ["--mode", "dfs", "--pb", "2", "--max", nb] + NAMED, False))
             P.append((["--exact", "k3/%s/man1/%s+y" % (o, u)], ["--mode", "dfs", "--pb", "2", "--max", nb] + NAMED, False))
         # two workers: really concurrent lock / unlock
         if quick:
-            P.append((["--only", "k2/%s/man2/" % o], ["--mode", "dfs", "--pb", "2", "--max", "100"] + NAMED, False))
+            P.append((["--only", "k2/%s/man2/" % o], ["--mode", "dfs", "--pb", "2", "--max", "60"] + NAMED, False))
             P.append((["--only", "k2h/%s/man2/" % o], ["--mode", "random", "--max", "12", "--seed", seed, "--weak", "1"], False))
         else:
             P.append((["--only", "k2/%s/man2/" % o], ["--mode", "dfs", "--pb", "2", "--max", "600"] + NAMED, False))
@@ -300,7 +300,7 @@ def plan(ck):
             P.append((["--only", "k3/%s/%s/" % (o, ex)], ["--mode", "random", "--max", n3, "--seed", seed, "--weak", "1"], False))
         P.append((["--only", "k2h/%s/pool2/" % o], ["--mode", "random", "--max", "4" if quick else "40", "--seed", seed, "--weak", "1"], False))
     # seeded random programs: k <= 4 coroutines x r <= 3 rounds x 4 options x mixed forms, 1-2 executors with 1-2 workers
-    nmix, nexec = (24, "80") if quick else (160, "250")
+    nmix, nexec = (24, "60") if quick else (160, "250")
     for i in range(8):
         P.append((["--only", "mix/", "--param", "mixes=%d" % (nmix // 8), "--param", "pseed=%d" % (ck.seed * 8 + i)],
                   ["--mode", "random", "--max", nexec, "--seed", str(ck.seed + i), "--weak", "1"], False))
@@ -346,7 +346,9 @@ def main(ck):
             names = [n for n in lout.split("\n") if n and (n == sel[1] if sel[0] == "--exact" else sel[1] in n)]
             crashed = next((n for n in names if n not in done), label)
             weak = args[args.index("--weak") + 1] if "--weak" in args else "0"
-            ck.hits.append(dict(what="harness crashed on %s (rc=%d) %s" % (crashed, rc, (err or out)[-300:]), key="crash",
+            verdicts = re.findall(r"^ORACLE (.*)$", err or "", re.M)
+            ck.hits.append(dict(what="harness crashed on %s (rc=%d) %s%s" % (crashed, rc, (out or "")[-300:].strip(),
+                                     ("; oracle verdict before the crash: " + verdicts[-1]) if verdicts else ""), key="crash",
                                 replay=dict(harness="h_c14", scenario=crashed, choices=m.group(2).strip(",") if m else None,
                                             weak=weak, params=[a for a in sel if "=" in a] + [a for a in args if a.startswith("yields=")])))
             continue
